@@ -7,6 +7,9 @@
 //           already holds text); value and template compared before/after;
 //           then through a copy-constructed, a copy-assigned and a moved cache;
 //           prints the fresh output, followed by ",!<n>" if anything differs
+//   every mode but 3: the overloads Render(content, value, stream), Render<Stream>(content, length, value),
+//           Render<Stream>(content, value) and JSON::Parse(content) on NUL-terminated copies must agree with the
+//           primary calls; ",!o<bits>" is appended otherwise (1, 2, 4: the three Render overloads; 8: Parse)
 // output: the rendered units ("-" when empty)
 #include "common.hpp"
 #include "JSON.hpp"
@@ -44,6 +47,34 @@ static std::string run_case(int mode, const std::vector<vf::u64> &tmpl, const st
     if (mode == 1) v.Stringify(before);
     Template::Render((const C *)tb.p, (SizeT)tb.n, v, ss);
     std::string out = vf::fmt_units(ss.First(), ss.Length());
+    {
+        // the convenience overloads (NUL-terminated content; stream returned by value) must give the same text;
+        // usable when the template holds no NUL unit.  Likewise JSON::Parse(content) without a length.
+        bool has_nul = false;
+        for (size_t i = 0; i < tmpl.size(); i++) has_nul = has_nul || ((C)tmpl[i] == C(0));
+        if (!has_nul) {
+            std::vector<C> z(tmpl.size() + 1);
+            for (size_t i = 0; i < tmpl.size(); i++) z[i] = (C)tmpl[i];
+            z[tmpl.size()] = C(0);
+            int             odd = 0;
+            StringStream<C> o1;
+            Template::Render(z.data(), v, o1);
+            if (!(o1 == ss)) odd |= 1;
+            StringStream<C> o2 = Template::Render<StringStream<C>>(z.data(), (SizeT)tmpl.size(), v);
+            if (!(o2 == ss)) odd |= 2;
+            StringStream<C> o3 = Template::Render<StringStream<C>>(z.data(), v);
+            if (!(o3 == ss)) odd |= 4;
+            std::vector<C> zj(json.size() + 1);
+            for (size_t i = 0; i < json.size(); i++) zj[i] = (C)json[i];
+            zj[json.size()] = C(0);
+            Value<C>        v0 = JSON::Parse(zj.data());
+            StringStream<C> a, b;
+            v.Stringify(a);
+            v0.Stringify(b);
+            if (!(a == b)) odd |= 8;
+            if (odd) out += ",!o" + std::to_string(odd);
+        }
+    }
     if (mode == 1) {
         int                 bad = 0;
         Array<Tags::TagBit> cache;
